@@ -143,6 +143,12 @@ pub fn run_with(rng: &mut Rng, n: usize, rep: &mut Report, lines: &mut Option<Ve
         let mut s = Scen::build(rng);
         let h0 = s.banks[0];
         let h1 = s.banks[1];
+        // ---- the REAL lending_pool_add_bank through dispatch (the bank account and its three vaults are really `init`ed):
+        //      whatever initial configuration it accepts must be coherent by the independent predicate
+        for _ in 0..6 {
+            add_bank_probe(&s, rng, rep);
+            cells += 1;
+        }
         for _ in 0..25 {
             // full configure with random (mostly valid, sometimes boundary) options
             // sometimes the bank is frozen for this round (state edit; lifted again below)
@@ -377,4 +383,98 @@ pub fn run_with(rng: &mut Rng, n: usize, rep: &mut Report, lines: &mut Option<Ve
         }
         rep.sample("configure / emode / clone rounds".to_string());
     }
+}
+
+
+/// one `lending_pool_add_bank` on a clone of the world with a generated initial configuration (mostly valid, each clause of
+/// the property violated in turn: weights out of range / out of order, isolated with weights, oracle age below the minimum,
+/// a killed initial state, non-standard asset tags)
+fn add_bank_probe(s: &Scen, rng: &mut Rng, rep: &mut Report) {
+    use marginfi::utils::{find_bank_vault_authority_pda, find_bank_vault_pda};
+    let mut w2 = s.w.clone();
+    let mut cfg = crate::world::fixtures::bank_config_fixed(I80F48::from_num(1 + rng.below(100)));
+    // a valid configuration (boundaries included), then at most one clause violated
+    let inr = |rng: &mut Rng, lo: i128, hi: i128| -> i128 { match rng.below(4) { 0 => lo, 1 => hi, _ => lo + (rng.below((hi - lo).max(1) as u64) as i128) } };
+    let mut ai = inr(rng, 0, ONE);
+    let mut am = inr(rng, ai, 2 * ONE);
+    let mut lm = inr(rng, ONE, 2 * ONE);
+    let mut li = inr(rng, lm, lm + ONE);
+    match rng.below(14) {
+        0 => ai = -1,
+        1 => ai = ONE + 1,
+        2 => am = ai - 1,
+        3 => am = 2 * ONE + 1,
+        4 => lm = ONE - 1,
+        5 => li = lm - 1,
+        _ => {}
+    }
+    cfg.asset_weight_init = I80F48::from_bits(ai).into();
+    cfg.asset_weight_maint = I80F48::from_bits(am).into();
+    cfg.liability_weight_maint = I80F48::from_bits(lm).into();
+    cfg.liability_weight_init = I80F48::from_bits(li).into();
+    if rng.chance(1, 5) {
+        cfg.risk_tier = RiskTier::Isolated;
+        if rng.chance(2, 3) {
+            cfg.asset_weight_init = I80F48::ZERO.into();
+            cfg.asset_weight_maint = I80F48::ZERO.into();
+        }
+    }
+    cfg.oracle_max_age = *rng.pick(&[60u16, 60, 60, 10, 600, 9, 0]);
+    cfg.operational_state = *rng.pick(&[BankOperationalState::Operational, BankOperationalState::Operational, BankOperationalState::Operational, BankOperationalState::Paused, BankOperationalState::ReduceOnly, BankOperationalState::KilledByBankruptcy]);
+    cfg.asset_tag = *rng.pick(&[0u8, 0, 0, 0, 1, 1, 2, 3]);
+    let compact: marginfi_type_crate::types::BankConfigCompact = cfg.into();
+    let mint = s.banks[rng.below(s.banks.len() as u64) as usize].mint;
+    let token_program = w2.token_program_of(&mint);
+    let bank = w2.new_key();
+    let (fs_key, _) = crate::world::fixtures::fee_state_pda();
+    let fee_wallet = w2.fee_state(&fs_key).global_fee_wallet;
+    let vt = |t| find_bank_vault_pda(&bank, t).0;
+    let va = |t| find_bank_vault_authority_pda(&bank, t).0;
+    use marginfi::state::bank::BankVaultType as T;
+    let ixn = Instruction {
+        program_id: marginfi::ID,
+        accounts: marginfi::accounts::LendingPoolAddBank {
+            marginfi_group: s.group, admin: s.admin, fee_payer: s.admin, fee_state: fs_key, global_fee_wallet: fee_wallet, bank_mint: mint, bank,
+            liquidity_vault_authority: va(T::Liquidity), liquidity_vault: vt(T::Liquidity),
+            insurance_vault_authority: va(T::Insurance), insurance_vault: vt(T::Insurance),
+            fee_vault_authority: va(T::Fee), fee_vault: vt(T::Fee),
+            token_program, system_program: solana_program::system_program::ID,
+        }.to_account_metas(None),
+        data: marginfi::instruction::LendingPoolAddBank { bank_config: compact }.data(),
+    };
+    let banks_before = w2.group(&s.group).banks;
+    let r = w2.exec(&ixn);
+    rep.bump("cases");
+    match r {
+        Err(e) => rep.bump(&format!("add_bank_rej_{}", e.code().map(|c| c.to_string()).unwrap_or_else(|| format!("{}", e)))),
+        Ok(()) => {
+            rep.bump("add_bank_ok");
+            let b = w2.bank(&bank);
+            let desc = format!("weights asset ({}, {}) liability ({}, {}), tier {:?}, oracle age {}, state {:?}, tag {}",
+                w(b.config.asset_weight_init), w(b.config.asset_weight_maint), w(b.config.liability_weight_init), w(b.config.liability_weight_maint),
+                b.config.risk_tier as u8, b.config.oracle_max_age, b.config.operational_state as u8, b.config.asset_tag);
+            if let Some(why) = incoherent(&b) {
+                rep.fail(format!("lending_pool_add_bank accepted an incoherent initial configuration: {}: {}", why, desc));
+            }
+            if b.config.operational_state == BankOperationalState::KilledByBankruptcy {
+                rep.fail(format!("add-pool-accepts-killed-initial-state: the real lending_pool_add_bank created a bank in the KilledByBankruptcy state: {}", desc));
+            }
+            if !(b.config.asset_tag == 0 || b.config.asset_tag == 1) {
+                rep.fail(format!("lending_pool_add_bank created a bank with asset tag {} (only default / SOL banks can be added through it): {}", b.config.asset_tag, desc));
+            }
+            if b.group != s.group || b.mint != mint || b.liquidity_vault != vt(T::Liquidity) || b.insurance_vault != vt(T::Insurance) || b.fee_vault != vt(T::Fee) {
+                rep.fail(format!("lending_pool_add_bank bound the new bank to other accounts than the ones it was given / derived: {}", desc));
+            }
+            if bits_of(b.asset_share_value) != ONE || bits_of(b.liability_share_value) != ONE || bits_of(b.total_asset_shares) != 0 || bits_of(b.total_liability_shares) != 0 {
+                rep.fail(format!("a freshly added bank does not start with share values 1 and empty totals: {}", desc));
+            }
+            if w2.group(&s.group).banks != banks_before + 1 {
+                rep.fail(format!("lending_pool_add_bank did not count the new bank in the group: {}", desc));
+            }
+        }
+    }
+}
+
+fn bits_of(v: marginfi_type_crate::types::WrappedI80F48) -> i128 {
+    I80F48::from(v).to_bits()
 }
